@@ -50,6 +50,7 @@ type envSpec struct {
 	prefetchEarly bool // start Prefetch before Verify (as fs.Mount does) instead of during the walk
 	evict       bool
 	adopt       bool // emulate the go-fuse bridge: add looked-up children to the parent inode
+	tiny        bool // registry chunk size of a few bytes: minimal workload, no Prefetch/BackgroundFetch
 	risky       bool // configuration known to be able to kill the process: run after the other environments
 }
 
@@ -66,6 +67,11 @@ func genCase(r *vf.Run, stage uint64, idx int) *tcase {
 	o.MaxEntries = rng.Pick(4, 12, 24, 24, 40)
 	if c.chunk == 65536 {
 		o.MaxFileSize = 3 * 65536
+	}
+	if stage == 2 {
+		// race build: estargz.Build (compression) is ~10x slower; keep archives small
+		o.MaxEntries = rng.Pick(4, 8, 12, 16)
+		o.MaxFileSize = 3 * int64(c.chunk)
 	}
 	c.ents = gen.RandomTar(rng, o)
 	// Force one multi-chunk regular file (unless the name is taken) so that every case
@@ -209,7 +215,7 @@ func drawEnv(rng *prng.R, c *tcase, blobLen int64, totalOps, maxG int) *envSpec 
 	// registry chunk size: 1 B ... blob size (+1), or the default (0 => 50000)
 	cands := []int64{64, 500, 500, 4096, blobLen - 1, blobLen, blobLen + 1, blobLen / 2, blobLen / 3, 0, 0}
 	cs := cands[rng.Intn(len(cands))]
-	if blobLen <= 16<<10 && rng.Chance(1, 10) {
+	if blobLen <= 12<<10 && rng.Chance(1, 10) {
 		cs = int64(rng.Pick(1, 3, 7)) // tiny registry chunks: every blob read touches thousands of cache entries
 	}
 	if cs < 0 {
@@ -264,7 +270,7 @@ func drawEnv(rng *prng.R, c *tcase, blobLen int64, totalOps, maxG int) *envSpec 
 	d = append(d, fmt.Sprintf("lru=%d fds=%d direct=%v syncadd=%v", dc.MaxLRUCacheEntry, dc.MaxCacheFds, dc.Direct, dc.SyncAdd))
 	// passthrough: the daemon forces Direct when it is on (cmd/containerd-stargz-grpc/main.go);
 	// a *os.File can only come from a directory cache.
-	if e.cfg.FSCacheType != "memory" && rng.Chance(1, 4) {
+	if e.cfg.FSCacheType != "memory" && rng.Chance(1, 4) && !tiny {
 		e.cfg.PassThrough = true
 		dc.Direct = true
 		// merge buffer: the default (400 MiB), smaller than a chunk (sequential merge), a
@@ -293,7 +299,7 @@ func drawEnv(rng *prng.R, c *tcase, blobLen int64, totalOps, maxG int) *envSpec 
 			e.personas = append(e.personas, p)
 		}
 	}
-	if blobLen > 0 && cs > 0 && blobLen/cs > 4000 {
+	if blobLen > 0 && cs > 0 && (blobLen/cs > 4000 || tiny) {
 		// "whole" makes every fetch cache the entire blob chunk by chunk: too heavy here
 		var keep []string
 		for _, p := range e.personas {
@@ -318,13 +324,19 @@ func drawEnv(rng *prng.R, c *tcase, blobLen int64, totalOps, maxG int) *envSpec 
 		e.walkers = maxG
 	}
 	per := totalOps / e.walkers
-	if tiny && per > 12 {
-		per = 12 // cost of one file read ~ (compressed size of the file / registry chunk) cache lookups
+	if tiny {
+		// Registry chunks of 1-7 bytes: one read of n compressed bytes is n (or n/7) cache
+		// lookups, a background fetch is (number of chunks) x (compressed file size) of them.
+		// Keep the chunk size in the domain but the workload minimal, and leave out
+		// Prefetch/BackgroundFetch (they alone take minutes here).
+		e.tiny = true
+		e.walkers = rng.Range(2, 3)
+		per = 6
 	}
 	if c.bopts.Compression == "zstdchunked" {
 		per = per / 3 // the repo's zstd:chunked decompressor allocates a fresh decoder (MBs) per chunk read
 	}
-	if per < 12 {
+	if per < 12 && !tiny {
 		per = 12
 	}
 	if rng.Chance(1, 3) {
